@@ -37,6 +37,7 @@ type Report struct {
 	Obs      []Obligation
 	Notes    []string
 	Funcs    map[string]bool // functions analysed
+	FuncObjs map[*Func]bool  // the same, as declarations (fault enumeration)
 	Pkgs     map[string]bool
 	start    time.Time
 	Mutants  []MutantResult
@@ -51,7 +52,7 @@ type MutantResult struct {
 }
 
 func NewReport(prop, tier string) *Report {
-	return &Report{Property: prop, Tier: tier, Funcs: map[string]bool{}, Pkgs: map[string]bool{}, start: time.Now()}
+	return &Report{Property: prop, Tier: tier, Funcs: map[string]bool{}, FuncObjs: map[*Func]bool{}, Pkgs: map[string]bool{}, start: time.Now()}
 }
 
 func mkKey(rule, construct, detail string) string {
@@ -90,6 +91,7 @@ func (r *Report) Note(format string, a ...any) { r.Notes = append(r.Notes, fmt.S
 func (r *Report) Saw(f *Func) {
 	if f != nil {
 		r.Funcs[f.String()] = true
+		r.FuncObjs[f] = true
 		r.Pkgs[Short(f.Pkg.PkgPath)] = true
 	}
 }
